@@ -676,6 +676,14 @@ func c14SmCb(a []string) string {
 			id = s.UniqueKey()
 			if err = sm.OnNewRtspPubSession(s); err == nil {
 				defer sm.OnDelRtspPubSession(s)
+				// BaseInSession.SetObserver hands the SDP to the group on a goroutine of its own: wait for it here, so
+				// that it cannot fire during a later case on the same (cached) ServerManager, where this harness builds
+				// sub sessions without a command-session back pointer
+				for t0 := time.Now(); time.Since(t0) < 10*time.Second; time.Sleep(200 * time.Microsecond) {
+					if _, ok := sm.VerifRawSdp(stream); ok {
+						break
+					}
+				}
 			}
 		} else {
 			s := rtsp.NewSubSession(urlCtx, cmd)
